@@ -327,7 +327,10 @@ fn run_sequences(c: &Case, acc: &mut Acc) {
             (vec![Stream { off: 1, len: 1, fin: true }, Stream { off: 2, len: 1, fin: false }], ErrorKind::FinalSize, "data-beyond-final-size"),
             (vec![Stream { off: 1, len: 2, fin: true }, Stream { off: 1, len: 1, fin: true }], ErrorKind::FinalSize, "final-size-changed-by-fin"),
             (vec![Stream { off: 0, len: 3, fin: false }, Stream { off: 0, len: 2, fin: true }], ErrorKind::FinalSize, "fin-below-received"),
+            (vec![Stream { off: 2, len: 2, fin: false }, Stream { off: 0, len: 1, fin: true }], ErrorKind::FinalSize, "fin-below-received-beyond-gap"),
+            (vec![Stream { off: 2, len: 2, fin: false }, Stream { off: 0, len: 3, fin: true }], ErrorKind::FinalSize, "fin-inside-received-beyond-gap"),
             (vec![Stream { off: 0, len: 3, fin: false }, Reset { final_size: 2 }], ErrorKind::FinalSize, "reset-below-received"),
+            (vec![Stream { off: 2, len: 2, fin: false }, Reset { final_size: 3 }], ErrorKind::FinalSize, "reset-below-received-beyond-gap"),
             (vec![Stream { off: 1, len: 1, fin: true }, Reset { final_size: 3 }], ErrorKind::FinalSize, "reset-changes-final-size"),
             (vec![Stream { off: 1, len: 1, fin: true }, Stream { off: 0, len: 1, fin: true }], ErrorKind::FinalSize, "second-fin-at-other-size"),
         ];
